@@ -280,9 +280,10 @@ func vfsRunConc(c *vfsCase, t *vfsTree) ([]*vfsLog, bool) {
 			r := rand.New(rand.NewSource(c.Seed*1000 + int64(a)))
 			sr := t.readers[a]
 			<-start
-			for {
+			for n := 0; ; n++ {
 				vfsJitter(r)
-				if r.Intn(16) < c.PClose {
+				if n >= 64 || r.Intn(16) < c.PClose { // 64: far above any item count of a case; guards against a reader that never ends
+
 					vfsClose(l, sr, a)
 					return
 				}
